@@ -177,7 +177,7 @@ theorem addRrset_items {track : Prop} {s0 : State} (owner : WName) (ty cls ttl :
     obtain ⟨_, hok⟩ := sp_addRr (track := track) (s0 := s0) (names := names) hint owner ty cls ttl rd hwf s
       ⟨loc, o, on0, hrec, hh⟩
     obtain ⟨p, hrec1⟩ := hok () s1 h1
-    obtain ⟨k, hit, hlen, hb, _, _⟩ := addRr_item hint owner ty cls ttl rd s s1 hrec.winv hwf hh h1
+    obtain ⟨k, hit, hlen, hb, _, _, _⟩ := addRr_item hint owner ty cls ttl rd s s1 hrec.winv hwf hh h1
     have e2 : Ext s1 s' := by
       have := frame_addRrset .mostRecentOwner owner ty cls ttl rds (n + 1) s1
       rw [h2] at this; exact this
@@ -232,7 +232,7 @@ theorem slay_addRrOp (sec : RrSection) (hint : Hint) (owner : WName) (ty cls ttl
   simp only at hfr1 c2 c3 c4 c5 c6 c7
   have w1 : WInv s1 := winv_ext hI.winv hfr1 c7 c3 c4 c5
   have hh1 : HintOK s1 hint owner := hintOK_ext hh hfr1 c3 c4 c5 c6
-  obtain ⟨k, hit, hlen, hb, _, _⟩ := addRr_item hint owner ty cls (ttlFrom ttl) rd s1 s2 w1 hwf hh1 h2
+  obtain ⟨k, hit, hlen, hb, _, _, _⟩ := addRr_item hint owner ty cls (ttlFrom ttl) rd s1 s2 w1 hwf hh1 h2
   have e2 : Ext s1 s2 := by
     have := frame_addRr hint owner ty cls (ttlFrom ttl) rd s1
     rw [h2] at this; exact this
